@@ -19,6 +19,21 @@ def rstrip (s : List Char) : List Char := (lstrip s.reverse).reverse
 /-- `str.strip()` -/
 def strip (s : List Char) : List Char := rstrip (lstrip s)
 
+/-- whitespace as `int(s)` / `float(s)` strip it, ASCII part: `\t \n \v \f \r` and the blank.  Unlike `str.strip()`, the
+    conversions do NOT strip the separators 0x1c–0x1f (`int("\x1c5")` raises ValueError; measured on CPython 3.12 for
+    every code point: harness/pytrans_selftest.py) -/
+def isNumWs (c : Char) : Bool :=
+  c = ' ' || c = '\t' || c = '\n' || c = '\r' || c = '\x0b' || c = '\x0c'
+
+def nlstrip : List Char → List Char
+  | [] => []
+  | c :: cs => if isNumWs c then nlstrip cs else c :: cs
+
+def nrstrip (s : List Char) : List Char := (nlstrip s.reverse).reverse
+
+/-- what `int()` / `float()` remove from both ends before they read the number -/
+def numStrip (s : List Char) : List Char := nrstrip (nlstrip s)
+
 /-- `s[a:b]` for `0 ≤ a`, `0 ≤ b` (Python clamps to the length) -/
 def slice (s : List Char) (a b : Nat) : List Char := (s.take b).drop a
 
@@ -61,9 +76,9 @@ inductive Py (α : Type)
   | outOfModel   -- grammar the model does not cover (inf/nan/underscores/non-ASCII); counted, not compared
 deriving Repr, DecidableEq
 
-/-- `int(s)` for ASCII `[ws][+-]digits[ws]` -/
+/-- `int(s)` for ASCII `[ws][+-]digits[ws]` (`ws` = `isNumWs`) -/
 def pyInt (s : List Char) : Py Int :=
-  let t := strip s
+  let t := numStrip s
   if t.any (fun c => c = '_' || c.toNat ≥ 128) then .outOfModel else
   match t with
   | '-' :: r => if allDigits r then .ok (-(natOfDigits r : Int)) else .valueError
@@ -88,7 +103,7 @@ def parseFixed (s : List Char) : Option (List Char × Nat) :=
 
 /-- `float(s)` on the decimal grammar `[ws][+-](d+[.d*]|.d+)[(e|E)[+-]d+][ws]`, as an exact decimal -/
 def pyFloat (s : List Char) : Py Dec :=
-  let t := strip s
+  let t := numStrip s
   if t.any (fun c => c = '_' || c.toNat ≥ 128) then .outOfModel else
   let lower := t.map (fun c => if 65 ≤ c.toNat ∧ c.toNat ≤ 90 then Char.ofNat (c.toNat + 32) else c)
   let (neg, body) := match lower with
